@@ -207,9 +207,12 @@ def judge(case, res):
     if b.get("ok") == -1:
         return "harness: " + b.get("harness", "")
     if act == "validity":
-        if b.get("ok") != 1:
-            return "constructor raised: %s" % b.get("msg")
         want_valid = case["exp"]["v"]["x"] == 1
+        if b.get("ok") != 1:
+            # some rules are enforced by the constructors: a clean refusal of an invalid layout conforms
+            if not want_valid and b.get("exc") in ("ValueError", "RuntimeError"):
+                return None
+            return "constructor raised on a valid layout: %s" % b.get("msg")
         if "valid_exc" in b:
             return "validityerror raised: " + b["valid_exc"]
         is_valid = b.get("valid", None) == ""
@@ -238,7 +241,13 @@ def judge(case, res):
     if r.get("ok") == -1:
         return "harness: " + r.get("harness", "")
     exp = case["exp"]
-    if exp["ok"] == 0:
+    if exp["ok"] == 3:
+        # ill-formed request: only the universal obligations apply (clean outcome, valid result)
+        if r.get("ok") == 1 and not r.get("scalar") and r.get("valid", "") != "":
+            return "result fails validity: %r" % r.get("valid")
+        if r.get("ok") == 1 and "json_exc" in r:
+            return "tojson raised: " + r["json_exc"]
+    elif exp["ok"] == 0:
         if r.get("ok") == 1:
             return "spec: must raise; library returned %s" % r.get("json")
         if r.get("exc") not in ("ValueError", "RuntimeError"):
@@ -352,7 +361,7 @@ def _chunk_task(args):
 
 
 def replay_cases(worker, cases, seed=0, jobs=16, chunk=1500, env=None,
-                 translate=("replay", "steps_for"), judge_fn=("replay", "judge"), max_fail_keep=200):
+                 translate=("replay", "steps_for"), judge_fn=("replay", "judge"), max_fail_keep=100000):
     """cases: iterable of case dicts.  Returns (stats, failures)."""
     chunks = []
     cur = []
